@@ -46,6 +46,15 @@ type scenario struct {
 	T    string `json:"t"`    // tcp | tls | ws | wss
 	What string `json:"what"`
 	K    int    `json:"k"`
+	// Cert: the TLS / WSS clients of the scenario present a (self-signed) client certificate; the listeners ask for one and do not
+	// require it, so a client with one is a client like any other
+	Cert bool `json:"cert"`
+}
+
+var clientCerts []tls.Certificate
+
+func clientTLS() *tls.Config {
+	return &tls.Config{InsecureSkipVerify: true, Certificates: clientCerts}
 }
 
 type broker struct {
@@ -221,7 +230,7 @@ func dial(b *broker, t string, smallBuf bool) (*client, error) {
 		if err != nil {
 			return nil, err
 		}
-		tc := tls.Client(conn, &tls.Config{InsecureSkipVerify: true})
+		tc := tls.Client(conn, clientTLS())
 		conn.SetDeadline(time.Now().Add(8 * time.Second))
 		if err := tc.Handshake(); err != nil {
 			conn.Close()
@@ -231,7 +240,7 @@ func dial(b *broker, t string, smallBuf bool) (*client, error) {
 		cl.rw = tc
 	case "ws", "wss":
 		d := websocket.Dialer{Subprotocols: []string{"mqtt"}, HandshakeTimeout: 8 * time.Second,
-			TLSClientConfig: &tls.Config{InsecureSkipVerify: true},
+			TLSClientConfig: clientTLS(),
 			NetDial:         func(network, addr string) (net.Conn, error) { return dialRaw(b, t, smallBuf) }}
 		conn, _, err := d.Dial(fmt.Sprintf("%s://%s/mqtt", t, b.addr[t]), nil)
 		if err != nil {
@@ -658,6 +667,9 @@ func main() {
 		panic(err)
 	}
 	defer f.Close()
+	if s.Cert {
+		clientCerts = []tls.Certificate{selfSigned()}
+	}
 	r := &runner{out: json.NewEncoder(f)}
 	r.emit(map[string]interface{}{"op": "new", "scn": *idx, "kind": s.Kind, "t": s.T, "what": s.What})
 	r.b = startBroker()
